@@ -379,8 +379,12 @@ def action_world():
     w.global_overrides[(ZP, 'datetime')] = World.Namespace('datetime', {'datetime': World.Namespace('datetime.datetime', {'strptime': Builtin('strptime', strptime)})})
 
     def parse_date(it, a, k):
+        # A-iso: parse_date(text, default_timezone=UTC): ParseError (a ValueError) or a date-time that is aware when the text
+        # carries an offset or a default zone is given (the default is UTC; passing None makes offset-less stamps naive)
         may(it, 'iso8601_rejects', 'iso8601.ParseError')
-        return JR.ParsedDT(a[0])
+        r = JR.ParsedDT(a[0])
+        r.default_tz_none = ('default_timezone' in k and k['default_timezone'] is None) or (len(a) > 1 and a[1] is None)
+        return r
     w.global_overrides[(ZP, 'iso8601')] = World.Namespace('iso8601', {'parse_date': Builtin('iso8601.parse_date', parse_date)})
 
     def tz_contract(it, a, k):
@@ -393,7 +397,9 @@ def action_world():
         if isinstance(obj, C) and obj.what == 'strptime' and name in ('date', 'time'):
             return AbstractCallable(name, lambda it2, a, k: C('strptime.' + name, obj.args[0], obj.args[1]))
         if isinstance(obj, JR.ParsedDT) and name == 'tzinfo':
-            return C('tzinfo', obj.text)      # A-iso: parse_date always returns an aware value (default_timezone=UTC)
+            if getattr(obj, 'default_tz_none', False) and it.ctx.branch(it.ctx.fresh('iso_text_without_offset', z3.BoolSort())):
+                return None                   # naive: only possible when the default zone was switched off
+            return C('tzinfo', obj.text)      # A-iso: aware (offset in the text, or the default zone UTC)
         if isinstance(obj, JR.ParsedDT) and name == 'astimezone':
             def astz(it2, a, k):
                 may(it2, 'astimezone_overflows', 'OverflowError')
